@@ -91,6 +91,13 @@ def impl(line):
             except ValueError:
                 vals.append("E")
         vals.append(str(p.data_length))
+        # the tuple view must be the seven accessors, in header order
+        try:
+            hv = [str(v) for v in p.header_values]
+        except ValueError:
+            hv = None
+        if hv is not None and "E" not in vals and hv != vals:
+            return "err header_values-differ " + " ".join(hv)
         return "ok " + " ".join(vals)
     return pu.run_frame(line)
 
